@@ -1089,6 +1089,62 @@ def run_combi(ctx, drv, case):
     return ck.ok
 
 
+def gen_useq(ctx):
+    """ONE uniform operation evaluates several component grids in sequence, at least two of them with >= 200 nodes and different
+    level vectors, in A-B-A order, small grids in between (mass lumping: no matrix cost)"""
+    r = ctx.rng
+    dim = r.choice([2, 2, 2, 3])
+    bigs = [[4, 4], [3, 5], [5, 3]] if dim == 2 else [[3, 3, 3], [2, 3, 4], [4, 3, 2], [3, 4, 2]]
+    smalls = [[2, 2], [3, 2], [1, 3]] if dim == 2 else [[1, 2, 1], [2, 2, 2]]
+    a, b = r.sample(bigs, 2)
+    lvs = [a, r.choice(smalls), b, a] if r.random() < 0.7 else [r.choice(smalls), a, b, r.choice(smalls), a]
+    M = r.choice([6, 10, 16])
+    data = gen_data(r, dim, uniform_stripes([5] * dim), M, res=128)
+    return {"kind": "useq", "dim": dim, "lvs": lvs, "lam": frac_str(r.choice(LAMS)), "lumped": True, "big": True, "numeric": False,
+            "classes": [r.choice([-1, 1]) for _ in range(M)] if r.random() < 0.5 else None,
+            "data": [[frac_str(c) for c in x] for x in data]}
+
+
+def run_useq(ctx, drv, case):
+    from sparseSpACE.ComponentGridInfo import ComponentGridInfo
+    ck = Checker(ctx, drv)
+    try:
+        dim = case["dim"]
+        data = [[F(c) for c in x] for x in case["data"]]
+        classes = case["classes"]
+        signs = [F(c) for c in classes] if classes is not None else [F(1)] * len(data)
+        sg = fv(signs) if classes is not None else "-"
+        op = mk_uniform(data, dim, F(case["lam"]), True, classes)
+        seen = {}
+        for n, lv in enumerate(case["lvs"]):
+            stripes = uniform_stripes(lv)
+            N = math.prod(2 ** l - 1 for l in lv)
+            tags = {"kind": "useq", "dim": dim, "classes": classes is not None, "position": n, "grid_ge_200": N >= 200,
+                    "repeated_grid": tuple(lv) in seen}
+            al = np.array(op.evaluate_levelvec(ComponentGridInfo(tuple(lv), 1)))
+            b = op.calculate_B(op.data, lv)
+            bref = b_ref(stripes, data, signs)
+            if not vec_near(b, bref, 1e-12):
+                k = next(i for i in range(N) if not near(b[i], bref[i], 1e-12))
+                ck.viol("rhs-is-sample-mean", dict(tags, big=N >= 200), dict(case, step=n), {"entry": k, "impl": float(b[k]), "sample_mean": str(bref[k])})
+            mb = parse_vec(drv.ask("bu %s %s %s %s" % ("large" if N >= 200 else "small", fints(lv), fvs(data), sg)))
+            if not vec_near(b, mb, 1e-12):
+                ck.corr("calculate_B in a sequence of grids", dict(case, step=n), np.asarray(b).tolist()[:8], [str(v) for v in mb][:8])
+            diag = math.prod(F(1, 2 ** (l - 1) * 3) for l in lv)          # as coded: uniform mass lumping, lambda not used
+            ref = normalise_ref(classes is not None, [v / diag for v in bref], [1] * N)
+            if not vec_near(al, ref, 1e-8):
+                ck.viol("surpluses-solve-the-system", tags, dict(case, step=n), {"impl": al.tolist()[:6], "reference": [float(v) for v in ref][:6]})
+            if tuple(lv) in seen and not vec_near(al, seen[tuple(lv)], 1e-12):
+                ck.viol("repeated-query-differs", dict(tags, what="surpluses of the same grid later in the sequence"), dict(case, step=n), {})
+            seen[tuple(lv)] = al
+            ctx.count("useq_grids_%s" % ("ge_200" if N >= 200 else "lt_200"))
+        check_data_handling(ck, op, case, {"kind": "useq", "dim": dim}, "at the end")
+    except Exception:
+        ck.ok = False
+        ctx.violation("exception", {"kind": "useq"}, case, {"traceback": traceback.format_exc()[-1500:]})
+    return ck.ok
+
+
 MALFORMED = [("", "bad-op"), ("rdw 0,1/2,1", "bad-op"), ("rdw 0,1/2,1 x 0", "bad-op"), ("rdw 0,1,1/2 0 0", "assert"), ("rdw 0,1 0 0", "assert"),
              ("ru -1 0 0", "bad-op"), ("hat ns 1/2,0 1/2", "bad-op"), ("hat ns 1/2,0,1 1/2,1/2", "assert"), ("hat ns 1/2,1/2,1 1/2", "degenerate"),
              ("bdw small 0,1/2,1 1/2,1/2 -", "assert"), ("bdw medium 0,1/2,1 1/2 -", "bad-op"), ("bu small 2 1/2 1,1", "bad-op"),
@@ -1114,7 +1170,11 @@ def run(ctx):
     k = 0
     while k < n and time.time() - t_run < budget:      # the budget counts from here, not from the Lean build
         k += 1
-        if k % 7 == 0:
+        if k == 1 or k % 30 == 16:
+            # the very first case of every run: one uniform operation, several large component grids in sequence
+            case = gen_useq(ctx)
+            ok = run_useq(ctx, drv, case)
+        elif k % 7 == 0:
             case = combi_case(ctx, drv, thorough)
             ok = run_combi(ctx, drv, case)
         else:
@@ -1146,7 +1206,9 @@ def replay(ctx, rp):
     case = rp["case"]
     drv = ctx.driver("drv_c16")
     base = {k: v for k, v in case.items() if k not in ("hat", "x", "ivec", "point", "lv_component", "warm", "stripes3", "second_run")}
-    if case.get("kind") == "combi":
+    if case.get("kind") == "useq":
+        ok = run_useq(ctx, drv, {k: v for k, v in base.items() if k != "step"})
+    elif case.get("kind") == "combi":
         ok = run_combi(ctx, drv, base)
     else:
         ok = run_case(ctx, drv, base)
